@@ -247,6 +247,33 @@ def run(res, facts, tier):
         else:
             r3.ok(site, '%d result writes' % n)
 
+    r5 = res.rule('C11-R5', 'string-result protocol: every typed XPath member that receives a XalanDOMString& result appends to it (attribute value templates and '
+                  'concatenating callers pass one accumulating buffer); none assigns or clears it', floor=10)
+    for k in facts.astidx:
+        f = facts.F.get(k)
+        if not f or f.get('cls') != 'xalanc_1_12::XPath':
+            continue
+        a = facts.ast(k)
+        rp = {p['id']: p['n'] for p in a['params'] if short(p['ty']) == 'XalanDOMString &'}
+        if not rp:
+            continue
+        bad = []
+        for x in walk(a['body']):
+            tgt = None
+            if x['k'] == 'OpCall' and x['op'] == '=' and x['args']:
+                tgt = strip_casts(x['args'][0])
+            elif x['k'] == 'MCall' and x.get('n') in ('assign', 'clear', 'erase', 'swap', 'resize', 'operator='):
+                tgt = strip_casts(x.get('obj'))
+            elif x['k'] == 'Bin' and x['op'] == '=':
+                tgt = strip_casts(x['lhs'])
+            if tgt is not None and tgt.get('k') == 'Ref' and tgt.get('id') in rp:
+                bad.append(x)
+        site = facts.sig(k)
+        if bad:
+            r5.violation(site, 'the string result parameter %s is overwritten (%s) where the other typed members append: text accumulated by the caller (e.g. the literal part of an attribute value template before a {literal}) is lost' % (rp[list(rp)[0]], pp(bad[0])[:60]), common.file_line(a, bad[0]))
+        else:
+            r5.ok(site)
+
     r4 = res.rule('C11-R4', 'instruction classes reach the interpreter only through the public XPath::execute overloads', floor=10)
     private = set()
     for k, f in facts.F.items():
